@@ -15,6 +15,9 @@ func setCollisionLimit(l uint32) { atree.VerifSetMaxCollisionLimitPerDigest(l) }
 // RunOracles evaluates the state oracles named in spec.Oracles on w.  w is a throw-away world:
 // the oracles may commit, reopen and load slabs.  Order: non-perturbing first.
 func RunOracles(w *World, spec Spec) error {
+	if spec.Has("healthx") {
+		return OHealthExact(w)
+	}
 	if spec.Has("crash") {
 		return OCrash(w)
 	}
@@ -44,6 +47,39 @@ func RunOracles(w *World, spec Spec) error {
 	}
 	if spec.Has("order") {
 		if err := OOrder(w); err != nil {
+			return err
+		}
+	}
+	if spec.Has("badids") {
+		if err := OBadIDs(w); err != nil {
+			return err
+		}
+	}
+	if spec.Has("inject") {
+		// runs on its own copy of the history's end state: it commits
+		keys := []int{}
+		for i := 0; i < spec.Keys; i++ {
+			keys = append(keys, i)
+		}
+		if spec.Extra["kLim"] == 1 {
+			keys = append(keys, 100, 101)
+		}
+		if spec.Keys == 0 && w.Digests != nil {
+			// trajectories: a few present and absent keys around the slab boundaries
+			for _, c := range w.LiveRoots() {
+				for i, k := range c.Keys {
+					if i%7 == 0 {
+						keys = append(keys, int(keyNumber(k)))
+					}
+				}
+			}
+			keys = append(keys, 10000, 9999)
+		}
+		if !spec.Has("reopen") && !spec.Has("struct") {
+			return OInject(w, keys)
+		}
+		defer func() {}()
+		if err := injectOnCopy(w, keys); err != nil {
 			return err
 		}
 	}
@@ -851,4 +887,10 @@ func OHealth(w *World) error {
 		return violf("CheckStorageHealth reports %d roots (%v), want %d", len(roots), got, nRoots)
 	}
 	return nil
+}
+
+// injectOnCopy runs OInject; it only reads through the containers and finally commits, which the
+// remaining oracles tolerate (they commit themselves).
+func injectOnCopy(w *World, keys []int) error {
+	return OInject(w, keys)
 }
